@@ -92,16 +92,22 @@ BoundaryFast(mask, shape, offs) ==
     LET st == Strides(shape) lin == LinOffs(shape, offs) IN
     {c \in 1..Len(mask) : mask[c] = 1 /\
         (OnBorder(c, shape, st) \/ \E k \in lin : mask[c + k] = 0)}
-NbrsFast(c, shape, st, offs, lin) ==
-    IF OnBorder(c, shape, st) THEN {Nbr(c, shape, st, o) : o \in offs} \ {0}
+(* ol = {<<o, linear offset of o>>}; lin = the linear offsets *)
+OffLin(shape, offs) == LET st == Strides(shape) IN
+    {<<o, SumSeq([d \in 1..Len(shape) |-> o[d] * st[d]])>> : o \in offs}
+NbrsFast(c, shape, st, ol, lin) ==
+    IF OnBorder(c, shape, st)
+    THEN LET xs == [d \in 1..Len(shape) |-> Coord(c, shape, st, d)]
+         IN {c + p[2] : p \in {q \in ol : \A d \in 1..Len(shape) :
+                                   LET x == xs[d] + q[1][d] IN 0 <= x /\ x < shape[d]}}
     ELSE {c + k : k \in lin}
 RECURSIVE FillFast(_, _, _, _, _, _, _)
-FillFast(front, seen, rest, shape, st, offs, lin) ==
-    LET nxt == {d \in UNION {NbrsFast(c, shape, st, offs, lin) : c \in front} : d \in rest}
+FillFast(front, seen, rest, shape, st, ol, lin) ==
+    LET nxt == {d \in UNION {NbrsFast(c, shape, st, ol, lin) : c \in front} : d \in rest}
     IN IF nxt = {} THEN seen
-       ELSE FillFast(nxt, seen \cup nxt, rest \ nxt, shape, st, offs, lin)
+       ELSE FillFast(nxt, seen \cup nxt, rest \ nxt, shape, st, ol, lin)
 ComponentOfFast(c, S, shape, offs) ==
-    FillFast({c}, {c}, S \ {c}, shape, Strides(shape), offs, LinOffs(shape, offs))
+    FillFast({c}, {c}, S \ {c}, shape, Strides(shape), OffLin(shape, offs), LinOffs(shape, offs))
 RECURSIVE ComponentsFast(_, _, _)
 ComponentsFast(S, shape, offs) ==
     IF S = {} THEN {}
